@@ -78,7 +78,12 @@ type c15Case struct {
 	Host    string      `json:"host"`
 	Headers [][2]string `json:"headers"` // as sent, in order (without Host and the body framing header)
 	Body    string      `json:"-"`
-	BodyRep string      `json:"body"`               // the body itself, or "sha256:<hex>:<length>" for a large one
+	BodyRep string      `json:"body"` // the body itself, or "sha256:<hex>:<length>" for a large one
+	// the body does not arrive intact: "bad-chunk" (a malformed chunk-size line after FaultAt good
+	// chunks), "eof-chunked" (the connection's write side ends after FaultAt good chunks, no last
+	// chunk), "short-length" (Content-Length announces more than is sent before the write side ends)
+	Fault   string      `json:"fault,omitempty"`
+	FaultAt int         `json:"fault_at,omitempty"`
 	BareQ   bool        `json:"bare_q,omitempty"`   // the target ends in a '?' without a query
 	TLS     bool        `json:"tls,omitempty"`      // the client talks TLS to heimdall
 	SessPos int         `json:"sess_pos,omitempty"` // position in a session: requests 1.. go through the SAME rule instance as request 0
@@ -625,13 +630,29 @@ func (s *c15Sys) run(c *c15Case) c15Out {
 	case c.Chunked:
 		sb.WriteString("Transfer-Encoding: chunked\r\n\r\n")
 
+		good := 0
+
 		for rest := c.Body; len(rest) > 0; {
+			if c.Fault != "" && good == c.FaultAt {
+				break
+			}
+
 			n := min(len(rest), 7+len(c.Body)/16)
 			fmt.Fprintf(&sb, "%x\r\n%s\r\n", n, rest[:n])
 			rest = rest[n:]
+			good++
 		}
 
-		sb.WriteString("0\r\n\r\n")
+		switch c.Fault {
+		case "bad-chunk":
+			sb.WriteString("zz\r\nnot a chunk\r\n0\r\n\r\n")
+		case "eof-chunked":
+			// nothing more: the write side is closed below
+		default:
+			sb.WriteString("0\r\n\r\n")
+		}
+	case c.Fault == "short-length":
+		fmt.Fprintf(&sb, "Content-Length: %d\r\n\r\n%s", len(c.Body), c.Body[:min(c.FaultAt, len(c.Body)-1)])
 	case c.Body != "":
 		fmt.Fprintf(&sb, "Content-Length: %d\r\n\r\n%s", len(c.Body), c.Body)
 	default:
@@ -643,6 +664,14 @@ func (s *c15Sys) run(c *c15Case) c15Out {
 
 	go func() {
 		_, err := io.WriteString(conn, sb.String())
+
+		if c.Fault == "eof-chunked" || c.Fault == "short-length" {
+			// premature end of the body: the write side is closed, the answer can still be read
+			if cw, ok := conn.(interface{ CloseWrite() error }); ok {
+				cw.CloseWrite() //nolint:errcheck
+			}
+		}
+
 		werr <- err
 	}()
 
@@ -665,7 +694,7 @@ func (s *c15Sys) run(c *c15Case) c15Out {
 	io.Copy(io.Discard, resp.Body) //nolint:errcheck
 	resp.Body.Close()
 
-	if e := <-werr; e == nil && c.Keep && !resp.Close && resp.StatusCode == http.StatusOK {
+	if e := <-werr; e == nil && c.Keep && c.Fault == "" && !resp.Close && resp.StatusCode == http.StatusOK {
 		keepIt = true
 
 		for _, h := range c.Headers {
@@ -1144,6 +1173,19 @@ func (s *c15Sys) gen(r *vf.Rand) c15Case {
 		c.Body, c.Chunked = "", false
 	}
 
+	if len(c.Body) >= 2 && len(c.Body) <= 4096 && r.Chance(12) {
+		// the body does not arrive intact
+		c.Fault = vf.Pick(r, []string{"bad-chunk", "bad-chunk", "eof-chunked", "short-length"})
+		c.Chunked = c.Fault != "short-length"
+		nchunks := (len(c.Body) + 6 + len(c.Body)/16) / (7 + len(c.Body)/16)
+
+		if c.Chunked {
+			c.FaultAt = r.Intn(nchunks + 1) // 0..n good chunks before the fault (n: only the last chunk is missing / broken)
+		} else {
+			c.FaultAt = r.Intn(len(c.Body))
+		}
+	}
+
 	// ---- pipeline
 	np := r.Intn(4)
 	for i := 0; i < np; i++ {
@@ -1185,6 +1227,9 @@ func (s *c15Sys) gen(r *vf.Rand) c15Case {
 	}
 
 	c.ReadBdy = r.Chance(30)
+	if c.Fault != "" {
+		c.ReadBdy = r.Chance(60) // the pipeline looks at the body (and sees "" because reading it fails)
+	}
 
 	if r.Chance(15) && !strings.Contains(c.Peer, ":") {
 		c.TLS = true
@@ -1242,7 +1287,7 @@ func c15Coq(c *c15Case, o c15Out) string {
 	}
 
 	req := vf.CoqApp("rq", vf.CoqStr(c.Method), vf.CoqStr(c.Raw), vf.CoqStr(c.Query), vf.CoqStr(c.Host),
-		c15CoqPairs(c.Headers), vf.CoqStr(c.BodyRep), vf.CoqBool(c.TLS), vf.CoqStr(c.Peer), vf.CoqBool(c.Trusted), xfu)
+		c15CoqPairs(c.Headers), vf.CoqStr(c.BodyRep), vf.CoqBool(c.Fault != ""), vf.CoqBool(c.TLS), vf.CoqStr(c.Peer), vf.CoqBool(c.Trusted), xfu)
 	pl := vf.CoqApp("pln", c15CoqPairs(c.PHdrs), c15CoqPairs(c.PCooks))
 
 	rw := "None"
@@ -1286,6 +1331,14 @@ func c15Tags(c *c15Case, o c15Out) ([]string, bool) {
 
 	if c.Reused {
 		tags = append(tags, "conn:reused")
+	}
+
+	if c.Fault != "" {
+		tags = append(tags, "body:fault:"+c.Fault)
+
+		if c.ReadBdy {
+			tags = append(tags, "body:fault-and-read-by-pipeline")
+		}
 	}
 
 	if c.SessPos > 0 {
@@ -1538,6 +1591,24 @@ func c15Corpus() []c15Case {
 	c.Srv = 1
 	c.Headers = [][2]string{{"X-Forwarded-Uri", "/other?b=2&a=%7E&&c"}}
 	out = append(out, c)
+
+	// a body that does not arrive intact is never forwarded as a complete request, whether or not the
+	// pipeline looked at it (seeded C15-9): broken chunk framing after 0..n good chunks, premature end
+	for _, f := range []struct {
+		fault string
+		at    int
+		read  bool
+	}{
+		{"bad-chunk", 1, true}, {"bad-chunk", 1, false}, {"bad-chunk", 0, true}, {"bad-chunk", 3, true},
+		{"eof-chunked", 2, true}, {"eof-chunked", 2, false}, {"eof-chunked", 4, true}, {"short-length", 10, true}, {"short-length", 10, false},
+	} {
+		c = base("POST", "/upload", "")
+		c.Body = "first chunk, second chunk, third chunk."
+		c.Fault, c.FaultAt, c.ReadBdy = f.fault, f.at, f.read
+		c.Chunked = f.fault != "short-length"
+		c.Headers = [][2]string{{"Content-Type", "text/plain"}}
+		out = append(out, c)
+	}
 
 	// C15-F5: add_path_prefix that is not a valid encoded path
 	c = base("GET", "/x%3By", "")
